@@ -114,7 +114,7 @@ def tup(x):
     return x
 
 
-ALL_TASKS = ["beat", "onset", "tempo", "key", "alignment"]
+ALL_TASKS = ["beat", "onset", "tempo", "key", "alignment", "pattern"]
 
 
 def tasks():
